@@ -5,8 +5,8 @@
     a Term that is not a tty, a bar removed from its MultiProgress) or membership ([TMulti]) in a
     MultiProgress whose own target is not a terminal; harness/src/bin/c06.rs exercises the four
     Rust-level ways on the implementation. *)
-From IndModel Require Import Base Text Draw Sys SimSpec.
-From IndProofs Require Import SimProofs.
+From IndModel Require Import Base Text Draw Sys SimSpec SysCheck SimCheck.
+From IndProofs Require Import SimProofs SimIterHistProofs.
 From Coq Require Import List NArith.
 Import ListNotations.
 Open Scope N_scope.
@@ -101,7 +101,8 @@ Proof. exact getters_of_logic. Qed.
 Print Assumptions C06_getters.
 
 (** Iterator-driven completion.  The end of a wrapped iterator (ProgressBarIter::next / next_back
-    / poll_next returning None, src/iter.rs:125-126, :149-150, :319-323) is not an op of Sys.v but
+    returning None, src/iter.rs:125-126, :149-150; the Stream adaptor's poll_next, :319-323, has the
+    same code but is exercised by C17's check, not by C06's) is not an op of Sys.v but
     [iter_none_step] (SimSpec.v; C04_iter): nothing on a finished bar, finish_using_style
     otherwise - in particular NO test of is_hidden().  On the logic projection it is
     [l_iter_none], again without reading any target, so C06_equiv extends to histories that
@@ -127,6 +128,22 @@ Theorem C06_iter_none_silent : forall W H fails s now b,
   s_calls (fst (fst (iter_none_step W H fails s now b))) = s_calls s.
 Proof. exact iter_none_silent. Qed.
 Print Assumptions C06_iter_none_silent.
+
+(** C06_equiv_with_iterators: the history-level statement for histories whose events are public
+    calls AND ends of wrapped iterators ([iop] of model/SimCheck.v: [IOp o], [IterNone b] = the
+    None branch of ProgressBarIter::next / next_back, [IterNoneThenDrop b] = the same on an
+    iterator that holds the only handle and is consumed by value; [irun] / [irun_logics] run such a
+    history with [istep]).  Two systems with equal logic - whatever their targets, terminals,
+    MultiProgress states and fault oracles - have equal logic (hence equal getters, C06_getters)
+    after EVERY event; and if in the first one nothing can draw (and the suspend closures write
+    nothing themselves), it makes no terminal call over the whole history.  By induction from
+    C06_logic_step / C06_iter_none_logic and C06_silent_step / C06_iter_none_silent. *)
+Theorem C06_equiv_with_iterators : forall W1 H1 f1 W2 H2 f2 s1 s2 h,
+  bars_logic s1 = bars_logic s2 -> all_hidden s1 ->
+  Forall (fun x => iclosure_writes (snd x) = []) h ->
+  irun_logics W1 H1 f1 s1 h = irun_logics W2 H2 f2 s2 h /\ snd (irun W1 H1 f1 s1 h) = [].
+Proof. exact equiv_with_iterators_hidden. Qed.
+Print Assumptions C06_equiv_with_iterators.
 
 (** Non-vacuity: a visible system (a standalone bar on a 20 Hz terminal, a member of a visible
     MultiProgress, a detached bar) draws; its hidden twin is all_hidden, emits nothing on the
@@ -156,3 +173,23 @@ Qed.
 (* the mixed statement is not vacuous: bar 2 is hidden next to the visible bar 0 *)
 Example C06_nonvacuous_mixed : bar_hidden ex_sys 2 = true /\ bar_hidden ex_sys 0 = false.
 Proof. split; reflexivity. Qed.
+
+(* iterator events: bar 0 (visible) and bar 1 are driven to exhaustion through another handle, bar 2
+   through its only handle; an exhausted iterator polled again changes nothing *)
+Definition ex_ih : list (N * iop) :=
+  [(0, IOp (OInsert BEnd 1)); (1000, IOp (OInc 0 3)); (2000, IterNone 0); (3000, IterNone 1);
+   (4000, IterNoneThenDrop 2); (5000, IterNone 0)].
+Example C06_nonvacuous_iterators :
+  all_hidden (hide_all ex_sys) /\ Forall (fun x => iclosure_writes (snd x) = []) ex_ih /\
+  bars_logic (hide_all ex_sys) = bars_logic ex_sys /\
+  snd (irun 20 10 no_faults (hide_all ex_sys) ex_ih) = [] /\
+  4 <? N.of_nat (length (snd (irun 20 10 no_faults ex_sys ex_ih))) = true /\
+  map (map l_finished) (irun_logics 20 10 no_faults (hide_all ex_sys) ex_ih)
+  = [[false; false; false]; [false; false; false]; [true; false; false]; [true; true; false];
+     [true; true; true]; [true; true; true]] /\
+  map (map l_pos) (irun_logics 20 10 no_faults (hide_all ex_sys) ex_ih)
+  = map (map l_pos) (irun_logics 20 10 no_faults ex_sys ex_ih).
+Proof.
+  split; [apply hide_all_hidden|]. split; [repeat constructor|]. split; [apply hide_all_logic|].
+  vm_compute. repeat split.
+Qed.
